@@ -455,9 +455,45 @@ theorem C10_total_partial (s : Str) :
       ∃ r, getDistance 8 s = .ok r) :=
   ⟨C10_sortKey_total s, C10_textKey_total s, C10_duration_total s, C10_getDistance_total_nonrelay 7 s⟩
 
-/-- Full statement of the totality clause (NOT proved here). -/
+theorem relay_facts : RelayFacts :=
+  ⟨Oblig.C10.digit_table, Oblig.C10.leading, Oblig.C10.leading_shape, Oblig.C10.num_facts, Oblig.C10.relay_leg,
+    Oblig.C10.leg_shape, Oblig.C07.tied mem_RELAYS, Oblig.C10.relays_legs⟩
+
+/-- **`get_distance` returns on every event code**, relays included: the leg of a relay is a number with an optional
+    unit letter — for which the greedy leading-number patterns leave exactly that letter, a unit the function knows — or one
+    of the six names it treats specially, so `int(legs) * get_distance(leg)` never meets `None`
+    (`Lemmas/Greedy`, `DistRelay`). -/
+theorem C10_getDistance_total (s : Str) (hc : (pyMatch "PAT_EVENT_CODE" s).isSome = true) :
+    ∃ r, getDistance 8 s = .ok r := by
+  have h1 : Matches Gen.PAT_EVENT_CODE s := (pyMatch_iff _ _ (Oblig.C07.tied mem_EVENT_CODE) s).1 hc
+  have hns : ∃ c ∈ s, isSpaceC c = false := by
+    apply Classical.byContradiction
+    intro hno
+    have hall : ∀ c ∈ s, isSpaceC c = true := by
+      intro c hc'
+      cases hs : isSpaceC c with
+      | true => rfl
+      | false => exact (hno ⟨c, hc', hs⟩).elim
+    exact RE.disjoint_of_check Gen.nsym 100000 _ _ Oblig.C10.codes_have_token _ (symsOf_inAlpha s) ⟨h1, lang_spaceStar s hall⟩
+  obtain ⟨tok, htok⟩ := firstToken_ok s hns
+  cases hm : pyMatch "PAT_RELAYS" tok with
+  | none => exact getDistance_nonrelay_ok Oblig.C10.digit_table Oblig.C10.leading 7 s tok htok hm
+  | some rc => exact getDistance_relay_ok relay_facts s tok rc htok hm 6
+
+/-- Full statement of the totality clause. -/
 def C10_total_statement : Prop :=
   ∀ s : Str, (pyMatch "PAT_EVENT_CODE" s).isSome →
     (∃ k, sortKey s = .ok k) ∧ (∃ r, getDistance 8 s = .ok r) ∧ (∃ r, durationTime s = .ok r)
+
+/-- **C10, totality clause, proved**: for every string accepted as an event code the sort key, the distance estimator and
+    the duration reader return a value. -/
+theorem C10_total : C10_total_statement :=
+  fun s hc => ⟨C10_sortKey_total s, C10_getDistance_total s hc, C10_duration_total s⟩
+
+/-- non-vacuity: accepted codes of several families, kernel-evaluated through the model -/
+def distIs (c : String) (n : Nat) : Bool := match getDistance 8 c.toList with | .ok (some m) => m == n | _ => false
+example : (pyMatch "PAT_EVENT_CODE" "4x1.5K".toList).isSome = true ∧ distIs "4x1.5K" 6000 = true ∧
+    (pyMatch "PAT_EVENT_CODE" "3000SC".toList).isSome = true ∧ distIs "3000SC" 3000 = true := by
+  decide +kernel
 
 end AthlibVerif.Props.C10
